@@ -80,6 +80,15 @@ def numeric_looking_hosts():
                     a.upper(), a + b".1", b"1." + a])
         for b in L[:12]:
             out.add(a + b"." + b)
+    # names that are all digits and dots only after the IDNA mapping (fullwidth digits, ideographic full stops): the rules are
+    # judged on the converted name
+    fw = lambda t: "".join(chr(0xff10 + ord(c) - 48) if c.isdigit() else c for c in t)
+    for t in ("123.45", "1.2.3.4", "127.0.0.1", "10.0", "0", "2001.7", "1.2.3.4.5"):
+        out.add(fw(t).encode("utf-8"))
+        out.add(t.replace(".", "\u3002").encode("utf-8"))
+        out.add((t[:-1] + fw(t[-1])).encode("utf-8"))
+        out.add(fw(t).replace(".", "\uff0e").encode("utf-8"))
+        out.add((fw(t) + ".com").encode("utf-8"))
     return sorted(x for x in out if x)
 
 
